@@ -1,9 +1,133 @@
-//! C05 part (b): placeholder until the pipeline findings driver exists.
-use crate::infra::{Run, Violation};
-use serde_json::Value;
+//! C05 part (b): comments are transparent through the whole pipeline. For every corpus file, every
+//! token gap and every comment shape, the file with the comment and the file with the comment
+//! replaced by blanks of the same length (the reference lexer does the blanking) must yield the
+//! same findings at the same byte positions; an unclosed block comment must yield an error.
+use super::decor::{analyse, by_position, corpus, gaps, insert, sorted};
+use crate::infra::{par_each, work_dir, Run, Violation};
+use crate::refsem::lexer::blank_comments;
+use serde_json::{json, Value};
+use std::path::Path;
 
-pub fn run(_run: &Run) {}
+pub const SHAPES: [&str; 12] = [
+    "/**/", "/***/", "/* x **/", "/*/ */", "//*\n", "// \"\n", "/* \" */", "/* é */", "/* // */", "// /*\n", "/* * / */", "/*\n*/",
+];
 
-pub fn replay(_case: &Value) -> Vec<Violation> {
-    Vec::new()
+pub fn check_variant(name: &str, text: &str, dir: &Path, case: &Value) -> Vec<Violation> {
+    let mut out = Vec::new();
+    let Some(blanked) = blank_comments(text) else { return out };
+    let a = analyse(text, &dir.join("c"));
+    let b = analyse(&blanked, &dir.join("b"));
+    match (a, b) {
+        (Ok(a), Ok(b)) => {
+            let fa = sorted(a.findings.iter().map(by_position).collect());
+            let fb = sorted(b.findings.iter().map(by_position).collect());
+            if fa != fb {
+                let missing: Vec<&String> = fb.iter().filter(|x| !fa.contains(x)).collect();
+                let extra: Vec<&String> = fa.iter().filter(|x| !fb.contains(x)).collect();
+                let id = missing.first().or(extra.first()).map(|s| s.split_whitespace().next().unwrap_or("").to_string()).unwrap_or_default();
+                let sig = if a.findings.len() != b.findings.len() { "comment-changes-findings" } else { "comment-moves-findings" };
+                out.push(Violation {
+                    signature: format!("{sig}/{id}"),
+                    what: format!("corpus {name}: replacing the comment by blanks of the same length changes the findings"),
+                    case: case.clone(),
+                    expected: format!("with blanks: {fb:?}"),
+                    observed: format!("with the comment: only-with-blanks {missing:?} only-with-comment {extra:?}\n{text}"),
+                });
+            }
+        }
+        (Err(e), _) | (_, Err(e)) => out.push(Violation {
+            signature: e,
+            what: format!("corpus {name}: analysis panicked on a commented variant"),
+            case: case.clone(),
+            expected: "analysis completes".into(),
+            observed: text.to_string(),
+        }),
+    }
+    out
+}
+
+pub fn check_unclosed(name: &str, text: &str, dir: &Path, case: &Value) -> Vec<Violation> {
+    let mut out = Vec::new();
+    match analyse(text, dir) {
+        Ok(a) => {
+            if !a.findings.iter().any(|f| f.level == "error") {
+                out.push(Violation {
+                    signature: "unclosed-comment-not-reported".into(),
+                    what: format!("corpus {name}: a block comment that is never closed swallows the rest of the file without an error"),
+                    case: case.clone(),
+                    expected: "an error for the unclosed block comment".into(),
+                    observed: format!("{:?}\n{text}", a.findings.iter().map(|f| f.short()).collect::<Vec<_>>()),
+                });
+            }
+        }
+        Err(e) => out.push(Violation { signature: e, what: "analysis panicked".into(), case: case.clone(), expected: "completes".into(), observed: text.to_string() }),
+    }
+    out
+}
+
+pub fn run(run: &Run) {
+    run.set_rule(
+        "part (b): 8 corpus files x every token gap x 12 comment shapes {/**/, /***/, /* x **/, /*/ */, //*, // \", \
+         /* \" */, /* e-acute */, /* // */, // /*, /* * / */, multi-line}, commented file vs the same file \
+         with the comment blanked: identical findings at identical byte positions; unclosed `/*` at every \
+         gap (a slice) must yield an error",
+    );
+    let root = work_dir("c05b");
+    let mut variants: Vec<(usize, usize, usize)> = Vec::new();
+    let files = corpus();
+    let step = run.tier.pick(3, 1);
+    for (ci, (_, text)) in files.iter().enumerate() {
+        for (gi, _) in gaps(text).iter().enumerate() {
+            for si in 0..SHAPES.len() {
+                // quick: every third (gap, shape) combination, rotating so that every gap and every
+                // shape is used
+                if (gi + si) % step == 0 {
+                    variants.push((ci, gi, si));
+                }
+            }
+        }
+    }
+    run.set_extra("pipeline_variants", json!(variants.len()));
+    par_each(&variants, |i, (ci, gi, si)| {
+        let (name, text) = &files[*ci];
+        let at = gaps(text)[*gi];
+        let case = json!({"kind": "pipeline", "corpus": name, "gap": gi, "shape": si});
+        run.watch(&case);
+        let variant = insert(text, at, SHAPES[*si]);
+        let dir = root.join(format!("{:?}", std::thread::current().id()).replace(|c: char| !c.is_ascii_alphanumeric(), ""));
+        let vs = check_variant(name, &variant, &dir, &case);
+        run.eval(1);
+        run.nontrivial(1);
+        if i % 499 == 0 {
+            run.outcome(&format!("pipeline:{name}:{}", if vs.is_empty() { "same" } else { "differs" }));
+            if run.want_sample() {
+                run.sample(json!({"corpus": name, "comment": SHAPES[*si], "inserted_at_byte": at}));
+            }
+        }
+        run.violations(vs);
+        // Unclosed comment at this gap (one shape is enough).
+        if *si == 0 && gi % 4 == 0 {
+            let case = json!({"kind": "unclosed", "corpus": name, "gap": gi});
+            let variant = insert(text, at, "/* never closed ");
+            run.eval(1);
+            run.violations(check_unclosed(name, &variant, &dir, &case));
+        }
+    });
+    let _ = std::fs::remove_dir_all(&root);
+}
+
+pub fn replay(case: &Value) -> Vec<Violation> {
+    let files = corpus();
+    let name = case["corpus"].as_str().unwrap_or("mixed");
+    let Some((_, text)) = files.iter().find(|(n, _)| *n == name) else { return Vec::new() };
+    let gi = case["gap"].as_u64().unwrap_or(0) as usize;
+    let Some(at) = gaps(text).get(gi).copied() else { return Vec::new() };
+    let root = work_dir("c05b-replay");
+    let out = match case["kind"].as_str() {
+        Some("pipeline") => check_variant(name, &insert(text, at, SHAPES[case["shape"].as_u64().unwrap_or(0) as usize % SHAPES.len()]), &root, case),
+        Some("unclosed") => check_unclosed(name, &insert(text, at, "/* never closed "), &root, case),
+        _ => Vec::new(),
+    };
+    let _ = std::fs::remove_dir_all(&root);
+    out
 }
